@@ -42,6 +42,7 @@ RULE = (
     "distinct_nontrivial = distinct (function, arguments, source network) where the derivation actually removed, merged, relabelled, exchanged or selected something"
 )
 ASSUMPTIONS = [
+    'besides the usual 4-8 node networks a `wide` kind drives every Hypergraph derivation with 11-14 nodes and edges of at most three members (two-digit positions; complement stays small)',
     "input classes: constructible networks that satisfy the C01/C02/C03 structural invariant (others are discarded and counted); one label kind per network; attribute values hashable",
     "iterable node labels (tuple, frozenset): determined empirically on the unchanged tree - cleanup (all flags, 3 classes), convert_labels_to_integers (3 classes), subhypergraph, dual (+ involution), <<, "
     "complement, cut_to_order / k_skeleton and largest_connected_hypergraph (both modes) handle them exactly and ARE driven with them: they add edges one by one or through bulk tuples "
